@@ -24,10 +24,30 @@ package pruner
 //@ extern func github.com/NethermindEth/juno/db.KeyValueRangeDeleter.DeleteRange
 
 // ---- the pruning entry point; its argument is the retention floor ---------------------
-//@ func (*Pruner).pruneUpto
+// The retention floor is published BEFORE the sweep starts deleting: from the first committed
+// batch on, history below the target is gone, and state queries for those blocks must already be
+// refused (a sweep runs in several batches and may fail between them).
+//@ func (*RetentionFloor).raiseTo
 //@   trusted
 //@   logged
+//@ func PruneUpto
+//@   trusted
+//@   logged
+//@ extern func time.Now
+//@ extern func time.Since
+//@ extern func go.uber.org/zap.Uint64
+//@ extern func go.uber.org/zap.Duration
+//@ func (*Pruner).pruneUpto
+//@   props C16
+//@   arith int
+//@   nosafe
+//@   logged
+//@   requires p != nil
 //@   modifies *
+//@   assigns calls_raiseTo, arg_raiseTo_floor, calls_PruneUpto, arg_PruneUpto_ctx, arg_PruneUpto_database, arg_PruneUpto_endExclusive, arg_PruneUpto_targetBatchByteSize
+//@   callsite PruneUpto@*: floor_published_first: $2 == oldestBlockToKeep && (oldestBlockToKeep > 0 ==> calls_raiseTo == old(calls_raiseTo) + 1 && arg_raiseTo_floor == oldestBlockToKeep - 1)
+//@   callsite raiseTo@*: just_below_the_target: oldestBlockToKeep > 0 && $1 == oldestBlockToKeep - 1
+//@   ensures swept_once: calls_PruneUpto == old(calls_PruneUpto) + 1
 
 // "Is this block younger than the window?" depends on the wall clock: an input, recorded in ghost state.
 //@ ghost var lastWithin bool
@@ -83,3 +103,42 @@ package pruner
 //@   arith int
 //@   modifies *
 //@   callsite AggregatedBloomFilterKey@2: aligned: fromBlock % core.NumBlocksPerFilter == 0 && fromBlock <= rangeEndExclusive && rangeEndExclusive - fromBlock < core.NumBlocksPerFilter && toBlock == fromBlock + core.NumBlocksPerFilter - 1
+
+// ---- initialising the event filter on a pruning node: one consistent read view --------------------
+// The chain height, the retention floor, the stored filter and every header are read through ONE
+// snapshot taken first, so that a sweep committed meanwhile cannot make the floor that was read
+// disagree with the headers that are read afterwards.
+//@ ghost var snapTaken db.Snapshot
+//@ extern func github.com/NethermindEth/juno/db.KeyValueStore.NewSnapshot
+//@   logged as NewSnapshot
+//@   sets snapTaken = result
+//@   ensures result != nil
+//@ extern func github.com/NethermindEth/juno/db.Snapshot.Close
+//@ func OldestRetainedBlock
+//@   trusted
+//@ extern func github.com/NethermindEth/juno/core.GetRunningEventFilter
+//@ extern func github.com/NethermindEth/juno/core.NewAggregatedFilter
+//@ extern func github.com/NethermindEth/juno/core.NewRunningEventFilterHot
+//@ extern func github.com/NethermindEth/juno/core.(*RunningEventFilter).NextBlock
+//@ extern func github.com/NethermindEth/juno/core.(*RunningEventFilter).InnerFilter
+//@   ensures result1 == nil ==> result0 != nil
+//@ extern func github.com/NethermindEth/juno/core.(*AggregatedBloomFilter).ToBlock
+//@ extern func fmt.Errorf
+//@   ensures result != nil
+//@ func fillRunningEventFilter
+//@   trusted
+//@ func rebuildRunningEventFilter
+//@   trusted
+//@ func InitializeRunningEventFilter
+//@   props C16
+//@   arith int
+//@   nosafe
+//@   requires database != nil
+//@   modifies *
+//@   assigns snapTaken, calls_NewSnapshot, l1HeadRead, heightRead
+//@   callsite GetChainHeight@*: through_the_snapshot: calls_NewSnapshot == old(calls_NewSnapshot) + 1 && $0 == snapTaken
+//@   callsite OldestRetainedBlock@*: through_the_snapshot: calls_NewSnapshot == old(calls_NewSnapshot) + 1 && $0 == snapTaken
+//@   callsite GetRunningEventFilter@*: through_the_snapshot: calls_NewSnapshot == old(calls_NewSnapshot) + 1 && $0 == snapTaken
+//@   callsite fillRunningEventFilter@*: through_the_snapshot: $0 == snapTaken
+//@   callsite rebuildRunningEventFilter@*: through_the_snapshot: $0 == snapTaken
+//@   ensures one_snapshot: calls_NewSnapshot == old(calls_NewSnapshot) + 1
